@@ -208,7 +208,7 @@ def main():
         ownq = res.get(own + '/quick')
         others = [k.split('/')[0] for k, v in res.items() if v['exit'] == 1 and not k.startswith(own)]
         if m.get('status_on_current_tree'):
-            verdict = m['status_on_current_tree'].split(':')[0] + ' (repository fix 4add929 removed the mechanism)'
+            verdict = m['status_on_current_tree'].split(':')[0] + ' by a later repository fix (see meta.json)'
         elif ownq and ownq['exit'] == 1:
             verdict = 'caught by %s quick (%s)' % (own, (ownq.get('first') or '').split(':')[0])
         elif others:
